@@ -12,6 +12,10 @@ run     : on random catgen catalogs (snapshot with cleaning files, light cone), 
             value term (loader closure applications and dtype casts) which the harness evaluates with the
             real closures on catgen's raw arrays and compares bit for bit with the loaded column
                                                                                               -> disagree
+          * edge requests (repeats, unknown / wrong-kind names, empty lists; fixed list + random): the real
+            class, the model and `validRequest` (the guard of the theorem no_request_dependent_failure, evaluated
+            by the driver) must agree on accept / reject; a request the guard accepts and the real class
+            rejects is an oracle failure                                                      -> fail / disagree
 """
 import json
 import re
@@ -520,9 +524,9 @@ def run(ctx):
     rng = ctx.rng
     snap = World(ctx, 'snap0', 'snap', int(rng.integers(0, 2 ** 31)))
     lc = World(ctx, 'lc0', 'lc', int(rng.integers(0, 2 ** 31)))
-    run_edges(ctx, {'snap': snap, 'lc': lc}, dts, ctx.pick(12, 150))
+    run_edges(ctx, {'snap': snap, 'lc': lc}, dts, ctx.pick(6, 150))
     if ctx.quick:
-        run_world(ctx, snap, dts, entries, n_subsets=45, alone_all_modes=False, pairs=False)
+        run_world(ctx, snap, dts, entries, n_subsets=40, alone_all_modes=False, pairs=False)
         run_world(ctx, lc, dts, entries, n_subsets=15, alone_all_modes=True, pairs=False)
     else:
         run_world(ctx, snap, dts, entries, n_subsets=420, alone_all_modes=True, pairs=True)
